@@ -93,6 +93,11 @@ def popBack {α : Type} (l : List α) : Option α × List α := (l.getLast?, l.d
 def nextRand (rs : List Nat) : Nat × List Nat := (rs.headD 0, rs.tail)
 def headRand (rs : List Nat) : Nat := rs.headD 0
 
+/-- `Result::is_ok` (Rust's `Result<T, E>` is `Except E T`) -/
+def isOk {E T : Type} : Except E T → Bool
+  | .ok _ => true
+  | .error _ => false
+
 /-- `loop { body }` with a fuel bound: `body st = (break?, st')` -/
 def loopFuel {σ : Type} : Nat → σ → (σ → Bool × σ) → σ
   | 0, st, _ => st
